@@ -152,8 +152,7 @@ Proof.
   apply twin_loc_Twin in HT. destruct HT as [_ (HS & HU & _ & _ & _ & HF & _)].
   unfold TWP, lift. cbn [fst snd]. split; [exact H1|]. split; [|exact H2].
   cbn [op_plain op_nokey] in Hpl, Hnk. apply andb_true_iff in Hnk. destruct Hnk as [Hk _]. apply Bool.negb_true_iff in Hk.
-  apply Bool.negb_true_iff in Hpl.
-  rewrite (st_Rem_ans hooks _ id now HS Hpl), (st_Rem_ans hooks _ id now HU Hpl).
+  rewrite (st_Rem_ans hooks _ id now HS), (st_Rem_ans hooks _ id now HU).
   unfold had_fact. rewrite HF, nokey_lookup, Hk. reflexivity.
 Qed.
 
